@@ -226,7 +226,9 @@ TraceSame == /\ IsEvent("same")
 \* two routes to (possibly) the same position: == must be exactly equality of position and clocks
 TracePair == /\ IsEvent("pair")
   /\ LET r == Recs[l]  p == PosOf(r.a)  q == PosOf(r.o) IN
-     Obs(IF_((C03 \/ C07) /\ r.eq # (p = q), {<<"C03", "route-equality", r.eq>>})
+     \* C03: equal positions (with clocks) compare equal whatever the route; C07: boards are equal exactly when their records are
+     Obs(IF_(C03 /\ p = q /\ ~r.eq, {<<"C03", "route-equality", r.eq>>})
+         \cup IF_(C07 /\ r.eq # (p = q), {<<"C07", "boards-equal-iff-records-equal", r.eq, CanonFen(p, TRUE), CanonFen(q, TRUE)>>})
          \cup IF_((C03 \/ C10) /\ p = q /\ r.a # r.o, {<<"C03", "route-dependent-derived-state">>}))
 
 TraceSan == /\ IsEvent("san")
